@@ -28,7 +28,9 @@ def main(args):
         try:
             m = importlib.import_module(engine + "_pipe")
             if hasattr(m, "replay"):
-                return m.replay(doc)
+                import inspect
+                first = list(inspect.signature(m.replay).parameters)[0]
+                return m.replay(args[0] if first == "path" else doc)
         except ImportError:
             pass
     sched = doc["schedule"]
